@@ -244,7 +244,10 @@ const CTOK: &[&str] = &["adframe", "adimg", "track", "px"];
 const OPTSETS: &[&str] = &["", "script", "image", "third-party", "image,third-party", "websocket,third-party", "~script", "document", "ping,first-party", "xhr", "font"];
 
 fn shape_token(r: &mut Rng, t: &str) -> String {
-    match r.below(14) {
+    match r.below(16) {
+        // long literal patterns (longer than most request URLs) whose other tokens are the ballast tokens
+        14 => format!("/{}/gif/png/click/impression/top/player/cdn/test/gif/png/click/impression/top/player", t),
+        15 => format!("/{}/player/top/impression/click/png/gif/test/cdn/player/top/impression/click/png/gif/x", t),
         0 => format!("/{}/", t),
         1 => format!("/{}/*.gif|", t),
         2 => format!("/{}/*.png|", t),
